@@ -289,6 +289,28 @@ def exception_flow(a):
     except (KeyError, IndexError) as e:
         return type(e).__name__
     return "none"
+
+
+def while_try_finally(a, b, xs):
+    out = []
+    while b < 4:
+        if a == 3:
+            b += 2
+        try:
+            if b == 4:
+                a += 1
+            out.append(xs[b])
+        except IndexError:
+            out.append(-1)
+        finally:
+            b += 1
+        b += 1
+    while a < 2:
+        try:
+            a += 1
+        finally:
+            out.append(a)
+    return a, b, out
 '''
 
 
@@ -352,6 +374,7 @@ def argument_vectors(mod):
     vec["printing"] = many([(0,), (1,), ("s",)])
     vec["early_returns"] = many([(None, 1), (1, 1), (0, 0), (1, 0), (nan, 0)])
     vec["exception_flow"] = many([(0,), (1,), ("k",)])
+    vec["while_try_finally"] = many([(3, 0, [1, 2]), (0, 0, list(range(9))), (0, 5, []), (1, 3, (7,)), (0, 0, None)])
     return vec
 
 
